@@ -53,6 +53,10 @@ func buildTree(root string) {
 		"l1/l2/l3/l4/l5/arch/sub/keep": []byte("another"),
 	}
 	fsx.WriteTree(root, files)
+	// a symbolic link inside the archive directory that points to the directory itself: a name that is harmless when it is
+	// normalised lexically ("lnk/../x" is "x") leaves the directory when the kernel resolves it ("lnk/.." is the parent).
+	// (Links that themselves point outside the tree are the user's business and not part of the property.)
+	os.Symlink(".", filepath.Join(root, nest, "lnk"))
 }
 
 func content(i int) []byte {
@@ -218,6 +222,8 @@ func check(c Case) (string, bool) {
 			"prefix-sibling":  filepath.Join(root, "l1/l2/l3/l4/l5/arch-old/y.dat"),
 			"prefix-sibling2": filepath.Join(root, "l1/l2/l3/l4/l5/arch2/z.dat"),
 			"rel-prefix":      "REL:../arch-old/y.dat",
+			"symlink-dotdot":  arch + "/lnk/../x",
+			"rel-symlink":     "REL:lnk/../x",
 		}[c.Spelling]
 		before, _ := fsx.Take(root)
 		var err error
@@ -291,6 +297,7 @@ var corpus = []string{
 	"‥/x", "．．/x", "..\u2215x", "..%2fx", ". ./x", ".. /x", " ../x", "../ x", "a/..", "a/../..", "a/../../", "../arch/../x",
 	strings.Repeat("../", 4) + "x", strings.Repeat("a/", 40) + strings.Repeat("../", 41) + "x", strings.Repeat("n", 300), "../" + strings.Repeat("n", 300),
 	strings.Repeat("a", 210) + "/../../x", strings.Repeat("b/", 120) + strings.Repeat("../", 121) + "x", strings.Repeat("c", 255) + "/../../sibling/x",
+	"lnk/../x", "lnk/../victim.txt", "lnk/../../x", "a/../lnk/../x", "lnk/lnk/../x",
 	"-", "~", "~/x", "$HOME/x", "c:/x", "c:\\x", "\\\\host\\share\\x", "con", "good1.dat/../../x", ".hidden", ".hidden/x", "..hidden", "sub/..hidden",
 }
 
@@ -358,7 +365,7 @@ func TestCheck(t *testing.T) {
 			}
 		}
 	}
-	for _, sp := range []string{"abs-parent", "abs-sibling", "abs-root", "dotdot", "dotdot-deep", "rel-dotdot", "rel-sibling", "rel-up-down", "double-slash", "prefix-sibling", "prefix-sibling2", "rel-prefix"} {
+	for _, sp := range []string{"abs-parent", "abs-sibling", "abs-root", "dotdot", "dotdot-deep", "rel-dotdot", "rel-sibling", "rel-up-down", "double-slash", "prefix-sibling", "prefix-sibling2", "rel-prefix", "symlink-dotdot", "rel-symlink"} {
 		idx++
 		if cfg.Mine(idx) {
 			do(Case{Format: "create", Spelling: sp})
